@@ -21,6 +21,8 @@ func genCfg(rng *hx.Rng, prop string, meta *hx.Meta) cfg {
 			}
 			if (cs.Kind == 2 || cs.Kind == 3) && rng.Chance(20) {
 				cs.CtxDone = true
+			} else if (cs.Kind == 2 || cs.Kind == 3) && rng.Chance(50) {
+				cs.CtxLive = true
 			}
 			ws.Calls = append(ws.Calls, cs)
 		}
